@@ -2,6 +2,7 @@ package checks
 
 import (
 	"fmt"
+	"sigs.k8s.io/controller-runtime/pkg/client"
 	"sort"
 	"strings"
 	"time"
@@ -34,20 +35,20 @@ type dPod struct {
 
 type dNode struct {
 	name, pool, typ, zone, ct string
-	pods           []dPod
-	drifted        bool
-	consolidatable string // "true" (default), "false", "absent"
-	nodeDND        bool
-	stage          string
-	deleting       bool
-	marked         bool
-	nominated      string // "", "open", "expired"
-	tgp            bool
-	unmanaged      bool
-	notReady       bool
-	readyUnknown   bool
-	terminating    bool // NodeClaim carries InstanceTerminating=True
-	labels         map[string]string
+	pods                      []dPod
+	drifted                   bool
+	consolidatable            string // "true" (default), "false", "absent"
+	nodeDND                   bool
+	stage                     string
+	deleting                  bool
+	marked                    bool
+	nominated                 string // "", "open", "expired", "renominated"
+	tgp                       bool
+	unmanaged                 bool
+	notReady                  bool
+	readyUnknown              bool
+	terminating               bool // NodeClaim carries InstanceTerminating=True
+	labels                    map[string]string
 }
 
 type dWorld struct {
@@ -57,6 +58,8 @@ type dWorld struct {
 	pending    []dPod
 	spotToSpot bool
 	reserved   bool
+	// extra API objects (storage classes, claims, CSINodes, ...)
+	extra []client.Object
 }
 
 type DEnv struct {
@@ -189,6 +192,9 @@ func buildDisrupt(dw dWorld) *DEnv {
 		w.Add(p)
 		env.Pods[dp.name] = p
 	}
+	for _, o := range dw.extra {
+		w.Add(o.DeepCopyObject().(client.Object))
+	}
 	w.SyncCluster()
 	for _, n := range dw.nodes {
 		pid := env.PIDs[n.name]
@@ -201,6 +207,13 @@ func buildDisrupt(dw dWorld) *DEnv {
 		case "expired":
 			w.Cluster.NominateNodeForPod(w.Ctx, pid)
 			w.Clock.Step(30 * time.Second)
+		case "renominated":
+			// nominated by one scheduling pass, nominated AGAIN by a later pass inside the first window, and looked at
+			// after the first window would have closed but before the second one does (window = 20 s)
+			w.Cluster.NominateNodeForPod(w.Ctx, pid)
+			w.Clock.Step(15 * time.Second)
+			w.Cluster.NominateNodeForPod(w.Ctx, pid)
+			w.Clock.Step(10 * time.Second)
 		}
 	}
 	env.Queue = disruption.NewQueue(w.Client, w.Rec, w.Cluster, w.Clock, w.Prov)
